@@ -162,7 +162,7 @@ class LDAPMessageParsableBase(ParsableBase):
                 six.raise_from(NotEnoughData(bytes_requested - bytes_available), e)
             else:
                 six.raise_from(InvalidValue(parsable, cls), e)
-        except (KeyError, TypeError) as e:
+        except (KeyError, TypeError, AttributeError) as e:
             six.raise_from(InvalidValue(parsable, cls), e)
 
         return message
